@@ -1009,7 +1009,7 @@ func runC14(w *World, r *Report) {
 	c, isC := loaded[0].Val.(*ssa.Const)
 	r.check(isC && c.Value != nil && c.Value.String() == "true", "loaded-flag-last", "LoadDag/stores-true", lineOf(w, loaded[0]), "flag is set to true", "stored value is not the constant true")
 
-	r.rule("failure-leads-to-cancel", "every failing step of the load leads to cancel before any exit: saveTrxInVertex, AddVertexByID, AddEdge, nil vertex, wrong type, no root", 5)
+	r.rule("failure-leads-to-cancel", "every failing step of the load leads to cancel before any exit: saveTrxInVertex, AddVertexByID, AddEdge, nil vertex, wrong type, no root", 3)
 	for _, callee := range []string{nSaveTrx, nAddVertexByID, nAddEdge} {
 		for _, c := range f.calls(callee) {
 			ok := len(failErrNonNil(c)) > 0
